@@ -252,3 +252,35 @@ package convert
 //@   props C12 C11
 //@   ensures len(result) == len(in) && forall(i, int, imp(0 <= i && i < len(result), result[i] != nil && result[i].Name == in[i].Name && result[i].Type == in[i].Type))
 //@   loop 1 invariant fresh(res) && len(res) == rangeindex + 1 && rangeindex < len(in) && forall(i, int, imp(0 <= i && i < len(res), res[i] != nil && res[i].Name == in[i].Name && res[i].Type == in[i].Type))
+
+// the same for the upstream-info alias tables of downstream chunks and acks: no nil entry, exactly
+// the keys of the wire form (an entry without value decodes to an empty UpstreamInfo, which encodes
+// again; a nil entry would re-encode to something that no longer decodes)
+//@ func toUpstreamInfo
+//@   props C12 C11
+//@   ensures result != nil && fresh(result)
+//@ func toUpstreamAliases
+//@   props C12 C11
+//@   ensures result != nil && forall(k, uint32, imp(has(result, k), result[k] != nil && has(in, k)))
+//@   ensures forall(k, uint32, imp(has(in, k), has(result, k)))
+//@   loop 1 invariant res != nil && fresh(res) && forall(k, uint32, imp(has(res, k), res[k] != nil && has(in, k))) && forall(k, uint32, imp(visited(k), has(res, k)))
+
+// ---------------------------------------------------------------- C11: extension sections
+// Every extension section is present after a conversion exactly when it was present before it, in
+// both directions and for every message type (pattern contracts: one contract per matching function,
+// functions added later included).
+//@ func toConnectRequestExtensionFields
+//@   props C11
+//@   ensures imp(result1 == nil, (result0 == nil) == (in == nil))
+//@ func toIntdashExtensionFields
+//@   props C11
+//@   ensures imp(result1 == nil, (result0 == nil) == (in == nil))
+//@ func to*ExtensionFieldsProto
+//@   props C11
+//@   ensures (result == nil) == (in == nil)
+//@ func to*ExtenstionFieldsProto
+//@   props C11
+//@   ensures (result == nil) == (in == nil)
+//@ func to*ExtensionFields
+//@   props C11
+//@   ensures (result == nil) == (in == nil)
